@@ -42,7 +42,11 @@ func readGposSubtable(p *parser.Parser, pos int64, meta *LookupMetaInfo) (Subtab
 		return nil, err
 	}
 
-	reader, ok := gposReaders[10*meta.LookupType+format]
+	var reader func(p *parser.Parser, pos int64) (Subtable, error)
+	ok := false
+	if format < 10 { // avoid collisions between 10*type+format keys
+		reader, ok = gposReaders[10*meta.LookupType+format]
+	}
 	if !ok {
 		return nil, &parser.InvalidFontError{
 			SubSystem: "sfnt/opentype/gtab",
